@@ -526,6 +526,9 @@ class ClientWorldObjectManager:
                 cached_obj = normalize_object_update_compressed_data(cached_obj_data)
                 cached_obj["UpdateFlags"] = update_flags
                 cached_obj["RegionHandle"] = handle
+                if obj is None:
+                    # Like any other update, may be for an object we track under another local ID or region
+                    obj = self.lookup_fullid(cached_obj["FullID"])
                 if obj is not None:
                     # Already tracked, just with a different CRC than the one we had cached
                     self._update_existing_object(obj, cached_obj, ObjectUpdateType.UPDATE, msg)
